@@ -73,6 +73,14 @@ def snapshot(obj, deep=True):
             anomalies.append(("orphan_edge_attr_record", e, ""))
     except Exception as ex:  # noqa
         anomalies.append(("attr_tables_unreadable", None, type(ex).__name__))
+    # the views must list exactly what the network holds (C06: "views are live")
+    try:
+        if list(obj._node) != nodes:
+            anomalies.append(("node_view_not_live", f"view={nodes!r}", f"network={list(obj._node)!r}"))
+        if list(obj._edge) != edges:
+            anomalies.append(("edge_view_not_live", f"view={edges!r}", f"network={list(obj._edge)!r}"))
+    except Exception as ex:  # noqa
+        anomalies.append(("tables_unreadable", None, type(ex).__name__))
     net = deepcopy(obj._net_attr) if deep else obj._net_attr
     snap = {
         "kind": kind,
